@@ -176,3 +176,9 @@ pub mod sync {
 pub fn flush_thread_chunk_cache() {
     crate::values::layout::heap::allocator::alloc::per_thread::verif_flush();
 }
+
+/// Reset the lazily cached hashes of the statically allocated empty and one-byte strings to
+/// "not computed" (the state at process start).
+pub fn reset_static_string_hashes() {
+    crate::values::layout::static_string::verif_reset_hashes();
+}
